@@ -115,6 +115,8 @@ pub struct MemState {
     pub sender: Option<EventSender>,
     pub silent: bool,
     pub hot: bool,
+    /// configure_hot_reloading keeps the sender it is given but reports failure
+    pub refuse: bool,
 }
 
 #[derive(Clone)]
@@ -175,6 +177,7 @@ impl Mem {
             reads: 0,
             sender: None,
             hot,
+            refuse: false,
             silent: false,
         })))
     }
@@ -228,6 +231,14 @@ impl Mem {
         let mut s = self.st();
         s.reads = 0;
         s.faults = faults;
+    }
+
+    /// a source that can be cloned for a reloader but whose hot-reloading fails to start (it keeps
+    /// the sender it was handed all the same)
+    pub fn new_refusing() -> Mem {
+        let m = Mem::new(true);
+        m.st().refuse = true;
+        m
     }
 
     /// the source lets go of its event sender (a watcher that ended)
@@ -355,7 +366,11 @@ impl Source for Mem {
     }
 
     fn configure_hot_reloading(&self, events: EventSender) -> Result<(), BoxedError> {
-        self.st().sender = Some(events);
+        let mut s = self.st();
+        s.sender = Some(events);
+        if s.refuse {
+            return Err("this source does not support hot-reloading".into());
+        }
         Ok(())
     }
 }
@@ -623,8 +638,20 @@ pub fn other_cache() -> &'static assets_manager::AssetCache<Mem> {
         for f in OTHER_FILES {
             m.write(f, "x", &vec![b'1'; other_file_len(f).unwrap()]);
         }
-        assets_manager::AssetCache::with_source(m)
+        let c = assets_manager::AssetCache::with_source(m);
+        // its assets are loaded once and for all (no loader runs, no token is made later on)
+        let was = trace_is_enabled();
+        trace_enable(false);
+        for f in OTHER_FILES {
+            let _ = c.load::<TInt>(f);
+        }
+        trace_enable(was);
+        c
     })
+}
+/// the value of the TInt asset `id` of the other cache
+pub fn other_asset_value(id: &str) -> Option<i64> {
+    other_file_len(id).map(|k| "1".repeat(k).parse::<i64>().unwrap())
 }
 
 pub static RACE_EXPECTED: AtomicU64 = AtomicU64::new(0);
@@ -744,6 +771,8 @@ pub fn run_line(cache: AnyCache, words: &[&str]) -> Result<i64, BoxedError> {
             let c = src.read(&unq(id), &unq(ext))?;
             Ok(c.as_ref().len() as i64)
         }
+        // an asset of ANOTHER hot-reloaded cache, looked up while this cache's asset is loading
+        ["oload", id] => Ok(other_cache().load::<TInt>(&unq(id))?.read().0.n),
         ["ord", id] => {
             let mut n = 0;
             let any = other_cache().as_any_cache();
